@@ -235,6 +235,18 @@ func (m *C11) put(st *explore.Step, msg *baskettypes.MsgPut) []V {
 		}
 	}
 	var out []V
+	if st.Res.OK && b != nil {
+		// the start date kept in the basket's balance rows (the key of the index Take walks) mirrors the batch's
+		for _, bb := range st.Post.BasketBalances {
+			if bb.BasketId != b.Id {
+				continue
+			}
+			if batch := st.Post.BatchByDenom(bb.BatchDenom); batch != nil && tsOf(bb.BatchStartDate) != tsOf(batch.StartDate) || (batch != nil && (bb.BatchStartDate == nil) != (batch.StartDate == nil)) {
+				out = append(out, V{Kind: "C11/basket-balance-start-date-differs-from-batch",
+					Detail: fmt.Sprintf("%s: balance row of %s in basket %s carries start date %v, the batch starts %v", st.Act.Label, bb.BatchDenom, b.BasketDenom, bb.BatchStartDate, batch.StartDate)})
+			}
+		}
+	}
 	switch {
 	case st.Res.OK && reason != "":
 		out = append(out, V{Kind: "C11/put-accepted-although/" + reason, Detail: fmt.Sprintf("%s at block time %s", st.Act.Label, pre.Time.Format(time.RFC3339Nano))})
